@@ -7,7 +7,9 @@ base=json.load(open('/root/.vp/BASELINE.json'))
 import subprocess
 na={k:v for k,v in na.items() if k not in claims}
 json.dump(na,open('/verif/specs/not_applicable.json','w'),indent=1)
-hooks=subprocess.run(['git','-C','/repo','log','--reverse','--grep','^verif hooks','--format=%H'],capture_output=True,text=True).stdout.split()
+# hook commits = every commit that touches a contract file (they touch nothing else; this also picks up
+# contract edits that were committed by the round driver under its own message)
+hooks=subprocess.run(['git','-C','/repo','log','--reverse','--format=%H','--','*zz_verif_contracts.go'],capture_output=True,text=True).stdout.split()
 if hooks:
     json.dump(hooks,open('/verif/specs/hook_commits.json','w'))
 checks=[]
